@@ -102,6 +102,7 @@ def load_package():
             tree = ast.parse(src, filename=p)
         except (OSError, SyntaxError) as e:
             raise PyFrontendError('%s does not parse: %s' % (p, e))
+        normalise_negations(tree)
         canonical_compares(tree)
         inline_explaining_variables(tree)
         hoist_else_after_exit(tree)
@@ -229,6 +230,39 @@ _MVX = '__mvx_'
 
 
 _MIRROR = {ast.Lt: ast.Gt, ast.Gt: ast.Lt, ast.LtE: ast.GtE, ast.GtE: ast.LtE}
+
+
+_PY_FLIP = {ast.Eq: ast.NotEq, ast.NotEq: ast.Eq, ast.Is: ast.IsNot, ast.IsNot: ast.Is,
+            ast.In: ast.NotIn, ast.NotIn: ast.In}
+
+
+def normalise_negations(tree):
+    """Negations in tests are pushed inward (the Python half of cxx_frontend.normalise_negations):
+    `not a == b` is shown as `a != b` (and `is` / `in` likewise - not the orderings, which need
+    not be total), `not (A and B)` as `not A or not B`, `not (A or B)` as `not A and not B`, and
+    `not not x` as `x`.  Only where a truth value is asked for: the tests of if / while / assert,
+    of conditional expressions and of comprehension conditions, and the operands of `and` / `or` /
+    `not` inside them."""
+    def nnf(e, neg=False):
+        if isinstance(e, ast.UnaryOp) and isinstance(e.op, ast.Not):
+            return nnf(e.operand, not neg)
+        if isinstance(e, ast.BoolOp):
+            op = e.op
+            if neg:
+                op = ast.Or() if isinstance(e.op, ast.And) else ast.And()
+            return ast.copy_location(ast.BoolOp(op=op, values=[nnf(v, neg) for v in e.values]), e)
+        if neg and isinstance(e, ast.Compare) and len(e.ops) == 1 and type(e.ops[0]) in _PY_FLIP:
+            return ast.copy_location(ast.Compare(left=e.left, ops=[_PY_FLIP[type(e.ops[0])]()],
+                                                 comparators=e.comparators), e)
+        if neg:
+            return ast.copy_location(ast.UnaryOp(op=ast.Not(), operand=e), e)
+        return e
+    for n in ast.walk(tree):
+        if isinstance(n, (ast.If, ast.While, ast.IfExp, ast.Assert)):
+            n.test = nnf(n.test)
+        elif isinstance(n, ast.comprehension):
+            n.ifs = [nnf(t) for t in n.ifs]
+    return tree
 
 
 def canonical_compares(tree):
